@@ -290,6 +290,7 @@ type Contract struct {
 	LoopMod   map[int][]*ModClause
 	LoopAfter map[int][]*Clause
 	Asserts   []*Clause
+	Assumes   []*Clause // ensures-clauses taken on trust at call sites, never proved (listed as assumptions)
 	Observes  []*Observe
 	Fresh     map[string]bool
 	SubParams map[string]*Contract // contracts on function-typed parameters
@@ -384,7 +385,7 @@ func NewSpecDB() *SpecDB {
 	return &SpecDB{Contracts: map[string]*Contract{}, Funcs: map[string]*SpecFunc{}, Records: map[string]*Record{}, Models: map[string]*ModelField{}, Preds: map[string]*Pred{}}
 }
 
-var clauseKW = map[string]bool{"fresh": true, "requires": true, "ensures": true, "modifies": true, "crash_inv": true, "loop": true, "observe": true, "param": true, "trusted": true, "nopanic": true, "pure": true, "noinline": true, "inline": true, "property": true, "assert": true}
+var clauseKW = map[string]bool{"fresh": true, "requires": true, "ensures": true, "modifies": true, "crash_inv": true, "loop": true, "observe": true, "param": true, "trusted": true, "nopanic": true, "pure": true, "noinline": true, "inline": true, "property": true, "assert": true, "assumes": true}
 var topKW = map[string]bool{"distinct": true, "recvonly": true, "methodset": true, "flagmap": true, "func": true, "package": true, "record": true, "spec": true, "model": true, "pred": true, "axiom": true}
 
 // LoadFile parses one contract file. pkgPath is the import path the file's functions live in
@@ -781,7 +782,7 @@ func parseClauseInto(c *Contract, kw, rest, where string) error {
 		c.Inline = true
 	case "property":
 		c.Props = append(c.Props, strings.Fields(rest)...)
-	case "requires", "ensures", "crash_inv", "assert":
+	case "requires", "ensures", "crash_inv", "assert", "assumes":
 		cl, err := parseClause(rest, where)
 		if err != nil {
 			return err
@@ -798,6 +799,8 @@ func parseClauseInto(c *Contract, kw, rest, where string) error {
 			c.CrashInv = append(c.CrashInv, cl)
 		case "assert":
 			c.Asserts = append(c.Asserts, cl)
+		case "assumes":
+			c.Assumes = append(c.Assumes, cl)
 		}
 	case "modifies":
 		ms, err := parseMods(rest)
